@@ -552,7 +552,8 @@ pub fn gen_array(
         }
         DataType::List(f) => {
             let (lens, total) = list_lens(rng, &valid, nullable);
-            let child = gen_array(rng, f.data_type(), total, f.is_nullable(), *rng.pick(&[0u8, 1, 4]), small);
+            let e8 = *rng.pick(&[0u8, 1, 4]);
+            let child = gen_array(rng, f.data_type(), total, f.is_nullable(), e8, small);
             Arc::new(ListArray::new(
                 f.clone(),
                 OffsetBuffer::from_lengths(lens),
@@ -562,7 +563,8 @@ pub fn gen_array(
         }
         DataType::LargeList(f) => {
             let (lens, total) = list_lens(rng, &valid, nullable);
-            let child = gen_array(rng, f.data_type(), total, f.is_nullable(), *rng.pick(&[0u8, 1, 4]), small);
+            let e8 = *rng.pick(&[0u8, 1, 4]);
+            let child = gen_array(rng, f.data_type(), total, f.is_nullable(), e8, small);
             Arc::new(LargeListArray::new(
                 f.clone(),
                 OffsetBuffer::from_lengths(lens),
@@ -571,14 +573,8 @@ pub fn gen_array(
             ))
         }
         DataType::FixedSizeList(f, k) => {
-            let child = gen_array(
-                rng,
-                f.data_type(),
-                n * (*k as usize),
-                f.is_nullable(),
-                *rng.pick(&[0u8, 0, 1, 4]),
-                small,
-            );
+            let e8 = *rng.pick(&[0u8, 0, 1, 4]);
+            let child = gen_array(rng, f.data_type(), n * (*k as usize), f.is_nullable(), e8, small);
             Arc::new(FixedSizeListArray::new(
                 f.clone(),
                 *k,
@@ -590,7 +586,8 @@ pub fn gen_array(
             let children: Vec<ArrayRef> = fields
                 .iter()
                 .map(|f| {
-                    gen_array(rng, f.data_type(), n, f.is_nullable(), *rng.pick(&[0u8, 1, 4, 8]), small)
+                    let e8 = *rng.pick(&[0u8, 1, 4, 8]);
+                    gen_array(rng, f.data_type(), n, f.is_nullable(), e8, small)
                 })
                 .collect();
             Arc::new(StructArray::new(
